@@ -3,6 +3,7 @@
 # copy of /repo and ALL six quick checks are run against it; every one must stay silent. Writes benign/MATRIX.md.
 # Built from a snapshot of /verif taken at start; JOBS changes in parallel.
 # (this copy is meant to be run with RELATED=1)
+# ONLY='*-h?' restricts the run to matching change ids and writes benign/MATRIX.part.md instead.
 # RELATED=1: each change is run only against its own property and the ones that share code with it (C01<->C09,
 # C04/C18/C19 share the interpreter, C12<->C18 share the fee quote); the other columns show "-".
 JOBS=${JOBS:-2}
@@ -25,16 +26,18 @@ one() {
       case " $rel " in *" $p "*) ;; *) row="$row - |"; continue ;; esac
     fi
     VERIF_REPO="$W" VERIF_NO_EVIDENCE=1 VERIF_REPLAY_DIR="$W.replays" VERIF_WORKERS=8 "$SNAP/verif/bin/check" $p quick >/dev/null 2>&1
-    if [ $? -eq 0 ]; then row="$row silent |"; else row="$row **ALARM** |"; fi
+    rc=$?
+    if [ $rc -eq 0 ]; then row="$row silent |"; else row="$row **ALARM** (exit $rc) |"; fi
   done
   rm -rf "$W" "$W.replays"
   echo "$row"
 }
 export -f one; export SNAP RELATED
-ls -d benign/*/ | xargs -P "$JOBS" -I{} bash -c 'one {}' | sort > "$SNAP/rows"
+OUT=/verif/benign/MATRIX.md; [ -n "$ONLY" ] && OUT=/verif/benign/MATRIX.part.md
+ls -d benign/${ONLY:-*}/ | xargs -P "$JOBS" -I{} bash -c 'one {}' | sort > "$SNAP/rows"
 {
   echo "| benign change | C01 | C04 | C09 | C12 | C18 | C19 |"
   echo "|---|---|---|---|---|---|---|"
   cat "$SNAP/rows"
-} > /verif/benign/MATRIX.md
-echo "benign matrix done: $(wc -l < "$SNAP/rows") changes, alarms: $(grep -c ALARM /verif/benign/MATRIX.md)"
+} > "$OUT"
+echo "benign matrix done: $(wc -l < "$SNAP/rows") changes, alarms: $(grep -c ALARM "$OUT")"
